@@ -93,7 +93,9 @@ struct vyukov_hash_map_traits<Key, managed_ptr<Value, VReclaimer>, ValueReclaime
                          Value* v,
                          std::memory_order order,
                          accessor& acc) {
-    key_cell.store(k, std::memory_order_relaxed);
+    // release: a reader (try_get_value) that sees the new key must also see that the bucket has been locked
+    // (and its version changed) in the meantime when it re-reads the bucket state
+    key_cell.store(k, std::memory_order_release);
     value_cell.store(v, order);
     if (AcquireAccessor) {
       acc.guard = typename storage_value_type::guard_ptr(v);
@@ -189,7 +191,9 @@ struct vyukov_hash_map_traits<Key, managed_ptr<Value, VReclaimer>, ValueReclaime
       acc.node_guard = typename storage_value_type::guard_ptr(n); // TODO - is this necessary?
       acc.value_guard = typename VReclaimer::template concurrent_ptr<Value>::guard_ptr(v);
     }
-    key_cell.store(hash, std::memory_order_relaxed);
+    // release: a reader (try_get_value) that sees the new key must also see that the bucket has been locked
+    // (and its version changed) in the meantime when it re-reads the bucket state
+    key_cell.store(hash, std::memory_order_release);
     value_cell.store(n, order);
   }
 
@@ -265,7 +269,9 @@ struct vyukov_hash_map_traits<Key, Value, ValueReclaimer, Reclaimer, true, true>
                          Value v,
                          std::memory_order order,
                          accessor& acc) {
-    key_cell.store(k, std::memory_order_relaxed);
+    // release: a reader (try_get_value) that sees the new key must also see that the bucket has been locked
+    // (and its version changed) in the meantime when it re-reads the bucket state
+    key_cell.store(k, std::memory_order_release);
     value_cell.store(v, order);
     if (AcquireAccessor) {
       acc.v = v;
@@ -353,7 +359,9 @@ struct vyukov_hash_map_traits<Key, Value, ValueReclaimer, Reclaimer, true, false
     if (AcquireAccessor) {
       acc.guard = typename storage_value_type::guard_ptr(n);
     }
-    key_cell.store(k, std::memory_order_relaxed);
+    // release: a reader (try_get_value) that sees the new key must also see that the bucket has been locked
+    // (and its version changed) in the meantime when it re-reads the bucket state
+    key_cell.store(k, std::memory_order_release);
     value_cell.store(n, order);
   }
 
@@ -418,7 +426,9 @@ struct vyukov_hash_map_traits<Key, Value, ValueReclaimer, Reclaimer, false, Triv
     if (AcquireAccessor) {
       acc.guard = typename storage_value_type::guard_ptr(n);
     }
-    key_cell.store(hash, std::memory_order_relaxed);
+    // release: a reader (try_get_value) that sees the new key must also see that the bucket has been locked
+    // (and its version changed) in the meantime when it re-reads the bucket state
+    key_cell.store(hash, std::memory_order_release);
     value_cell.store(n, order);
   }
 
